@@ -942,7 +942,7 @@ struct Interp
 				return;
 			}
 			if(live < count[cb]) {
-				fail("ledger.cb.missing", "C08", "callback cb" + std::to_string(cb) + " is in " + std::to_string(count[cb]) + " node(s) but only " + std::to_string(live) + " instance(s) are alive");
+				fail("ledger.cb.missing", "C08," + domainProp(), "callback cb" + std::to_string(cb) + " is in " + std::to_string(count[cb]) + " node(s) but only " + std::to_string(live) + " instance(s) are alive");
 				return;
 			}
 		}
@@ -1031,7 +1031,7 @@ Grammar makeGrammar(const std::string & prop)
 	g.maxTotalOps = 160;
 	const bool nested = prop != "C01";
 	const bool multi = prop == "C10" || prop == "C19" || prop == "C08" || prop == "C09";
-	const bool wrap = prop == "C19";
+	const bool wrap = prop == "C19" || prop == "C09"; // C09: an add that fails exactly at the wrap must leave the list as it was
 	const ArgSpec H(0, 40, -6, -1, 35);       // handle operand: index or special
 	const ArgSpec HS(0, 40, -6, -1, 60);      // inside scripts: favour self / last removed / ...
 	const ArgSpec slotArg = multi ? ArgSpec(0, 3) : ArgSpec(0, 0);
